@@ -75,7 +75,7 @@ pub const TYPES: &[Ty] = &[
     Ty { tag: "F32x3", kind: Kind::F, w: 32, n: 3 },
     Ty { tag: "F64x1", kind: Kind::F, w: 64, n: 1 },
     Ty { tag: "F64x2", kind: Kind::F, w: 64, n: 2 },
-    Ty { tag: "F64x3", kind: Kind::F, w: 64, n: 3 },
+    Ty { tag: "F64x5", kind: Kind::F, w: 64, n: 5 },
     Ty { tag: "F128x1", kind: Kind::F, w: 128, n: 1 },
     Ty { tag: "F128x2", kind: Kind::F, w: 128, n: 2 },
     Ty { tag: "FU64x2", kind: Kind::F, w: 64, n: 2 },
@@ -239,7 +239,7 @@ macro_rules! impl_sub_bvf {
     )+}
 }
 impl_sub_bvf!("F8x1": u8, 1; "F8x3": u8, 3; "F8x17": u8, 17; "F16x2": u16, 2; "F16x5": u16, 5; "F32x1": u32, 1; "F32x3": u32, 3;
-    "F64x1": u64, 1; "F64x2": u64, 2; "F64x3": u64, 3; "F128x1": u128, 1; "F128x2": u128, 2;
+    "F64x1": u64, 1; "F64x2": u64, 2; "F64x5": u64, 5; "F128x1": u128, 1; "F128x2": u128, 2;
     "FU64x2": usize, 2);
 
 fn bvd_from(len: usize, ws: &[u128]) -> Bvd {
@@ -303,7 +303,7 @@ macro_rules! for_types {
     ($cb:ident ! ( $($pre:tt)* )) => {
         $cb!($($pre)* ; "F8x1": bva::Bvf<u8,1>, "F8x3": bva::Bvf<u8,3>, "F8x17": bva::Bvf<u8,17>, "F16x2": bva::Bvf<u16,2>, "F16x5": bva::Bvf<u16,5>,
             "F32x1": bva::Bvf<u32,1>, "F32x3": bva::Bvf<u32,3>, "F64x1": bva::Bvf<u64,1>,
-            "F64x2": bva::Bvf<u64,2>, "F64x3": bva::Bvf<u64,3>, "F128x1": bva::Bvf<u128,1>,
+            "F64x2": bva::Bvf<u64,2>, "F64x5": bva::Bvf<u64,5>, "F128x1": bva::Bvf<u128,1>,
             "F128x2": bva::Bvf<u128,2>, "FU64x2": bva::Bvf<usize,2>, "D": bva::Bvd, "A": bva::Bv)
     };
 }
@@ -517,6 +517,12 @@ pub fn harness_main(generate: fn(&str, u64, &str, Emit), exec: fn(&[&str]) -> St
                 }
                 let r = exec_line(&l, exec);
                 CASE_NO.fetch_add(1, std::sync::atomic::Ordering::Relaxed);
+                if let Some(t) = trace.as_mut() {
+                    let _ = writeln!(t, "#returned");       // a death after this marker is the generator's, not the implementation's
+                }
+                if let Ok(mut g) = CURRENT.lock() {
+                    g.clear();
+                }
                 writeln!(w, "{} => {}", l, r).unwrap();
                 r
             };
